@@ -1,8 +1,10 @@
 // wire: drives the REAL DevInputWriter::send and DevInputReader::next of
-// /repo/src/dev_input_rw.rs over pipes (property C18).
+// /repo/src/dev_input_rw.rs over pipes (property C18), and the REAL
+// TabletModeSwitchReader::next of /repo/src/tablet_mode_switch_reader.rs (property C12).
 //
 //   tm-harness wire --out FILE --seed N --tier quick|thorough [--batches N] [--streams N]
-//   tm-harness wire-replay (--batch "P30 R30" | --records "sec:usec:type:code:value ..." | --bytes HEX)
+//   tm-harness wire-replay (--batch "P30 R30" | --records "sec:usec:type:code:value ..." | --bytes HEX
+//                           | --tablet-records "sec:usec:type:code:value ..." | --tablet-bytes HEX)
 //
 // Case file, one case per line (fields separated by " | "):
 //   FACTS size=.. off_time=.. off_type=.. off_code=.. off_value=.. timeval=.. endian=..
@@ -10,10 +12,13 @@
 //   W <events> | <hex written by the real writer, or PANIC / ERR> | <OK|PANIC> <events the real reader returns on those bytes>
 //   R <records sec:usec:type:code:value> | <hex fed, built through libc::input_event> | <OK|PANIC> <events returned>
 //   X <hex fed (arbitrary bytes, truncated streams)> | <OK|PANIC> <events returned>
+//   T <records sec:usec:type:code:value> | <hex fed> | <OK|PANIC> <On|Off ... returned by the real TabletModeSwitchReader::next>
+//   Y <hex fed (arbitrary bytes, truncated streams)> | <OK|PANIC> <On|Off ...>            (property C12: the switch reader)
 // The OCaml side (ocaml/wire_check.ml) recomputes every line with the extracted
 // Coq model and applies the extracted checkers of WireSpec.v to the REAL outputs.
 use crate::dev_input_rw::{DevInputReader, DevInputWriter};
 use crate::keys::{Event, KeyCode};
+use crate::tablet_mode_switch_reader::{TabletModeSwitchReader, TableModeEvent};
 use crate::util::*;
 use num_traits::FromPrimitive;
 use std::io::Write;
@@ -101,6 +106,46 @@ pub fn real_read(bytes: &[u8]) -> (Vec<Event>, bool) {
   }
   close(r); close(w);
   (evs, panicked)
+}
+
+// the same for TabletModeSwitchReader::next (src/tablet_mode_switch_reader.rs): the REAL reader
+// on the read end of a non-blocking pipe; true = TableModeEvent::On, false = Off
+pub fn real_tablet_read(bytes: &[u8]) -> (Vec<bool>, bool) {
+  let (r, w) = make_pipe();
+  set_nonblock(r);
+  set_nonblock(w);
+  let mut evs = vec![];
+  let mut panicked = false;
+  let mut reader = TabletModeSwitchReader { fd: r };
+  let mut pos = 0usize;
+  loop {
+    let end = std::cmp::min(bytes.len(), pos + 49152 / REC * REC);
+    while pos < end {
+      let n = unsafe { libc::write(w, bytes[pos..end].as_ptr() as *const libc::c_void, end - pos) };
+      if n <= 0 { panic!("harness: cannot fill the pipe"); }
+      pos += n as usize;
+    }
+    let mut guard = 0usize;
+    loop {
+      guard += 1;
+      if guard > bytes.len() + 4 { panicked = true; break; } // more events than bytes: runaway
+      match catch_unwind(AssertUnwindSafe(|| reader.next())) {
+        Err(_) => { panicked = true; break; }
+        Ok(Err(_)) => break,
+        Ok(Ok(TableModeEvent::On)) => evs.push(true),
+        Ok(Ok(TableModeEvent::Off)) => evs.push(false),
+      }
+    }
+    if panicked || pos >= bytes.len() { break; }
+  }
+  close(r); close(w);
+  (evs, panicked)
+}
+
+fn tablet_result_str(r: &(Vec<bool>, bool)) -> String {
+  let mut s = String::from(if r.1 { "PANIC" } else { "OK" });
+  for e in &r.0 { s.push_str(if *e { " On" } else { " Off" }); }
+  s
 }
 
 pub fn hex(b: &[u8]) -> String {
@@ -250,6 +295,48 @@ fn raw_case(out: &mut dyn Write, bytes: &[u8]) {
   writeln!(out, "X {} | {}", hex(bytes), read_result_str(&rr)).unwrap();
 }
 
+fn tablet_case(out: &mut dyn Write, recs: &[Rec]) {
+  let mut bytes = vec![];
+  for r in recs { bytes.extend(record_bytes(r.sec, r.usec, r.type_, r.code, r.value)); }
+  let rr = real_tablet_read(&bytes);
+  let rs: Vec<String> = recs.iter().map(rec_str).collect();
+  writeln!(out, "T {} | {} | {}", rs.join(" "), hex(&bytes), tablet_result_str(&rr)).unwrap();
+}
+
+fn tablet_raw_case(out: &mut dyn Write, bytes: &[u8]) {
+  let rr = real_tablet_read(bytes);
+  writeln!(out, "Y {} | {}", hex(bytes), tablet_result_str(&rr)).unwrap();
+}
+
+// the grid of the switch reader's decision: every combination is fed alone and drawn from in the mixtures
+const TAB_TYPES: [u16; 9] = [0, 1, 2, 3, 4, 5, 0x11, 0x14, 0xffff];
+const TAB_CODES: [u16; 5] = [0, 1, 2, 5, 0xffff];
+const TAB_VALUES: [i32; 6] = [-1, 0, 1, 2, i32::MIN, i32::MAX];
+
+fn rand_tablet_record(rng: &mut Rng, known: &[u16], unknown: &[u16]) -> Rec {
+  let (sec, usec) = rand_time(rng);
+  match rng.below(20) {
+    // genuine tablet-mode switch events
+    0 | 1 | 2 | 3 | 4 => Rec { sec, usec, type_: 5, code: 1, value: rng.below(2) as i32 },
+    // the SYN_REPORT that follows every event of a real device
+    5 | 6 => Rec { sec, usec, type_: 0, code: 0, value: 0 },
+    // other switches (SW_LID, SW_HEADPHONE_INSERT, SW_DOCK, ...)
+    7 | 8 => Rec { sec, usec, type_: 5, code: *rng.pick(&[0u16, 2, 3, 4, 5, 0x10, 0x101, 0xffff]), value: rng.below(2) as i32 },
+    // the tablet switch with other values
+    9 => Rec { sec, usec, type_: 5, code: 1, value: *rng.pick(&[-1i32, 2, 3, 256, 257, 65536, 65537, 0x0100_0000, 0x0100_0001, i32::MIN, i32::MAX, -256]) },
+    // 5 / 1 in one byte of the type / code only
+    10 => Rec { sec, usec, type_: *rng.pick(&[0x0105u16, 0x0500, 0xff05, 0x8005]), code: 1, value: rng.below(2) as i32 },
+    11 => Rec { sec, usec, type_: 5, code: *rng.pick(&[0x0101u16, 0x0100, 0xff01, 0x8001]), value: rng.below(2) as i32 },
+    // the writer's own key records (zero time, EV_KEY, known key, 1/0); KEY_ESC has code 1
+    12 | 13 | 14 => Rec { sec: 0, usec: 0, type_: 1, code: if rng.chance(1, 3) { 1 } else { *rng.pick(known) }, value: rng.below(2) as i32 },
+    // the grid
+    15 | 16 | 17 => Rec { sec, usec, type_: *rng.pick(&TAB_TYPES), code: *rng.pick(&TAB_CODES), value: *rng.pick(&TAB_VALUES) },
+    // anything the keyboard generator makes
+    18 => rand_record(rng, known, unknown),
+    _ => Rec { sec, usec, type_: rng.next() as u16, code: rng.next() as u16, value: rng.next() as i32 },
+  }
+}
+
 pub fn main(args: &[String]) -> i32 {
   let a = args_map(args);
   let seed: u64 = a.get("seed").map(|s| s.parse().unwrap()).unwrap_or(1);
@@ -275,6 +362,18 @@ pub fn main(args: &[String]) -> i32 {
     for n in 2..=std::cmp::min(toks.len(), 300) { let v: Vec<Rec> = toks[..n].iter().map(|t| parse(t)).collect(); read_case(&mut out, &v); }
     out.flush().unwrap();
     println!("wire: split-records {}", toks.len());
+    return 0;
+  }
+  if let Some(rs) = a.get("split-tablet-records") {
+    let toks: Vec<&str> = rs.split_whitespace().collect();
+    let parse = |t: &str| -> Rec {
+      let f: Vec<i64> = t.split(':').map(|x| x.parse().expect("bad record")).collect();
+      Rec { sec: f[0], usec: f[1], type_: f[2] as u16, code: f[3] as u16, value: f[4] as i32 }
+    };
+    for t in &toks { tablet_case(&mut out, &[parse(t)]); }
+    for n in 2..=std::cmp::min(toks.len(), 300) { let v: Vec<Rec> = toks[..n].iter().map(|t| parse(t)).collect(); tablet_case(&mut out, &v); }
+    out.flush().unwrap();
+    println!("wire: split-tablet-records {}", toks.len());
     return 0;
   }
   if let Some(b) = a.get("split-batch") {
@@ -376,8 +475,86 @@ pub fn main(args: &[String]) -> i32 {
     }
     raw_case(&mut out, &bytes); nx += 1;
   }
+
+  // ---- the tablet-mode switch reader (property C12): its own generator state, so that the cases above
+  // do not depend on it
+  let mut trng = Rng::new(seed ^ 0x7ab1e7);
+  let mut nt = 0usize;
+  let mut ny = 0usize;
+  tablet_case(&mut out, &[]); nt += 1;
+  // every (type, code, value) of the grid as a single record, with a zero and with a random timestamp
+  for &t in &TAB_TYPES { for &c in &TAB_CODES { for &v in &TAB_VALUES {
+    tablet_case(&mut out, &[Rec { sec: 0, usec: 0, type_: t, code: c, value: v }]);
+    let (sec, usec) = rand_time(&mut trng);
+    tablet_case(&mut out, &[Rec { sec, usec, type_: t, code: c, value: v }]);
+    nt += 2;
+  } } }
+  // the whole grid in one stream, in order and shuffled
+  {
+    let mut recs: Vec<Rec> = vec![];
+    for &t in &TAB_TYPES { for &c in &TAB_CODES { for &v in &TAB_VALUES {
+      let (sec, usec) = rand_time(&mut trng);
+      recs.push(Rec { sec, usec, type_: t, code: c, value: v });
+    } } }
+    tablet_case(&mut out, &recs); nt += 1;
+    trng.shuffle(&mut recs);
+    tablet_case(&mut out, &recs); nt += 1;
+  }
+  // every grid record between two of the writer's own key records (ESC = code 1 released, then pressed)
+  for &t in &TAB_TYPES { for &c in &TAB_CODES { for &v in &TAB_VALUES {
+    tablet_case(&mut out, &[Rec { sec: 0, usec: 0, type_: 1, code: 1, value: 0 },
+                            Rec { sec: 1, usec: 2, type_: t, code: c, value: v },
+                            Rec { sec: 0, usec: 0, type_: 1, code: *trng.pick(&known), value: 1 }]);
+    nt += 1;
+  } } }
+  // seeded mixtures
+  let ntab = if thorough { nstreams } else { nstreams / 2 };
+  for _ in 0..ntab {
+    let n = match trng.below(10) { 0 => 1, 1 => 2, 2 => 40 + trng.below(300), _ => trng.below(40) };
+    let recs: Vec<Rec> = (0..n).map(|_| rand_tablet_record(&mut trng, &known, &unknown)).collect();
+    tablet_case(&mut out, &recs); nt += 1;
+  }
+  // a real writer batch (written by DevInputWriter::send itself) with switch records spliced between its records
+  for _ in 0..ntab / 4 {
+    let evs = rand_batch(&mut trng, &keys, &common, &high, 60);
+    let mut recs: Vec<Rec> = vec![];
+    for e in &evs {
+      while trng.chance(1, 3) { recs.push(rand_tablet_record(&mut trng, &known, &unknown)); }
+      let (c, v) = match e { Event::Pressed(k) => (code(k), 1), Event::Released(k) => (code(k), 0) };
+      recs.push(Rec { sec: 0, usec: 0, type_: 1, code: c, value: v });
+    }
+    recs.push(Rec { sec: 0, usec: 0, type_: 0, code: 0, value: 0 });
+    tablet_case(&mut out, &recs); nt += 1;
+  }
+  // truncated tails (every cut 1..23 of a stream ending in an On / Off record) and garbage
+  for cut in 1..REC {
+    let mut bytes: Vec<u8> = vec![];
+    for _ in 0..trng.below(4) { let r = rand_tablet_record(&mut trng, &known, &unknown); bytes.extend(record_bytes(r.sec, r.usec, r.type_, r.code, r.value)); }
+    let (sec, usec) = rand_time(&mut trng);
+    bytes.extend(record_bytes(sec, usec, 5, 1, (cut % 2) as i32));
+    let keep = bytes.len() - cut;
+    bytes.truncate(keep);
+    tablet_raw_case(&mut out, &bytes); ny += 1;
+  }
+  for _ in 0..ntab / 4 {
+    let n = trng.below(200);
+    let mut bytes: Vec<u8> = vec![];
+    if trng.chance(1, 2) {
+      for _ in 0..n { bytes.push(trng.next() as u8); }
+    } else {
+      let m = 1 + trng.below(6);
+      for _ in 0..m {
+        let r = rand_tablet_record(&mut trng, &known, &unknown);
+        bytes.extend(record_bytes(r.sec, r.usec, r.type_, r.code, r.value));
+      }
+      let cut = trng.below(REC);
+      let keep = bytes.len() - cut;
+      bytes.truncate(keep);
+    }
+    tablet_raw_case(&mut out, &bytes); ny += 1;
+  }
   out.flush().unwrap();
-  println!("wire: seed={} tier={} known_keys={} write_cases={} read_cases={} raw_cases={}", seed, tier, keys.len(), nw, nr, nx);
+  println!("wire: seed={} tier={} known_keys={} write_cases={} read_cases={} raw_cases={} tablet_cases={} tablet_raw_cases={}", seed, tier, keys.len(), nw, nr, nx, nt, ny);
   0
 }
 
@@ -407,6 +584,23 @@ pub fn replay_main(args: &[String]) -> i32 {
     let rr = real_read(&bytes);
     println!("records: {}", rs);
     println!("real reader: {}", read_result_str(&rr));
+  }
+  if let Some(rs) = a.get("tablet-records") {
+    let mut bytes = vec![];
+    for t in rs.split_whitespace() {
+      let f: Vec<i64> = t.split(':').map(|x| x.parse().expect("bad record")).collect();
+      bytes.extend(record_bytes(f[0], f[1], f[2] as u16, f[3] as u16, f[4] as i32));
+    }
+    let rr = real_tablet_read(&bytes);
+    println!("records (sec:usec:type:code:value): {}", rs);
+    for ch in bytes.chunks(size_of::<libc::input_event>()) { println!("  {}", hex(ch)); }
+    println!("real TabletModeSwitchReader::next until Err: {}", tablet_result_str(&rr));
+  }
+  if let Some(h) = a.get("tablet-bytes") {
+    let bytes = unhex(h);
+    let rr = real_tablet_read(&bytes);
+    println!("bytes: {}", h);
+    println!("real TabletModeSwitchReader::next until Err: {}", tablet_result_str(&rr));
   }
   if let Some(h) = a.get("bytes") {
     let bytes = unhex(h);
